@@ -38,6 +38,16 @@ CORPUS = [
 ]
 
 
+# inputs at size boundaries: very long tokens of every kind, deep nesting, many arguments
+CORPUS += [
+    b"if size :over " + b"9" * 5000 + b" { stop; }", b'require "vacation"; vacation :days ' + b"1" * 4400 + b' "x";', b"if size :over " + b"7" * 25 + b"K { stop; }",
+    b'keep "' + b"a" * 70000 + b'";', b'if header "' + b"\xc3\xa9" * 3000 + b'" "b" { keep; }', b"x" * 5000 + b";", b"keep :" + b"t" * 5000 + b";",
+    b"if " + b"not " * 60 + b"true { keep; }", b"if true { " * 40 + b"keep; " + b"} " * 40, b"if anyof (" + b"true, " * 300 + b"true) { keep; }",
+    b'if header [' + b'"a", ' * 500 + b'"z"] "b" { keep; }', b"# " + b"c" * 70000 + b"\nkeep;", b"/* " + b"*" * 5000 + b" */ keep;",
+    b'require "reject"; reject text:\n' + b"line\n" * 3000 + b".\n;", b"keep;" * 2000,
+]
+
+
 def render(tokens):
     return b" ".join(tokens)
 
@@ -58,7 +68,20 @@ def pool():
     global _pool
     if _pool is None:
         _pool = mp.get_context("fork").Pool(NPROC)
+        import atexit
+        atexit.register(_shutdown)
     return _pool
+
+
+def _shutdown():
+    global _pool
+    if _pool is not None:
+        try:
+            _pool.close()
+            _pool.join()
+        except Exception:  # noqa
+            pass
+        _pool = None
 
 
 def chunks(xs, n):
